@@ -74,7 +74,21 @@ fn solve_kind(fnname: &str, kind: &str, a: &[Vec<Ent>], b: &[Ent], lsq: bool) ->
     // the generic container: untagged entries are Number::F64, tagged ones Number::Dual (N1) / Number::Dual2 (N2)
     let n1 = |e: &Ent| if e.vars.is_empty() { Number::F64(e.re) } else { Number::Dual(e.d1()) };
     let n2 = |e: &Ent| if e.vars.is_empty() { Number::F64(e.re) } else { Number::Dual2(e.d2()) };
+    // the Python-facing entry points `_dsolve1` / `_dsolve2`: the matrix flattened row by row, as `dual_solve` passes it
+    macro_rules! pyrun {
+        ($mk:expr, $js:expr, $f:path) => {{
+            let flat: Vec<_> = a.iter().flatten().map($mk).collect();
+            let bv: Vec<_> = b.iter().map($mk).collect();
+            match guard(|| $f(flat, bv, lsq)) {
+                Outcome::Ok(Ok(x)) => ("ok".to_string(), x.iter().map($js).collect()),
+                Outcome::Ok(Err(_)) => ("err".to_string(), vec![]),
+                Outcome::Panic(_) => ("panic".to_string(), vec![]),
+            }
+        }};
+    }
     match (fnname, kind) {
+        ("pydsolve", "D1") => pyrun!(|e: &Ent| e.d1(), dual_json, rateslib::verif::linalg_py::dsolve1),
+        ("pydsolve", _) => pyrun!(|e: &Ent| e.d2(), dual2_json, rateslib::verif::linalg_py::dsolve2),
         ("dsolve", "N1") => run!(n1, number_json),
         ("dsolve", "N2") => run!(n2, number_json),
         ("dsolve", "F") => run!(|e: &Ent| e.re, |x: &f64| f64_json(*x)),
@@ -140,7 +154,8 @@ pub fn record(seed: u64, n: usize, out: &str) {
         let lsq = i % 5 == 4;
         let nn = if lsq { 2 + r.below(5) as usize } else { 1 + r.below(8) as usize };
         let m = if lsq { nn + 1 + r.below(7) as usize } else { nn };
-        let (f, kind) = *r.pick(&[("dsolve", "F"), ("dsolve", "D1"), ("dsolve", "D2"), ("fdsolve", "F"), ("fdsolve", "D1"), ("fdsolve", "D2"), ("dsolve", "N1"), ("dsolve", "N2")]);
+        let (f, kind) = *r.pick(&[("dsolve", "F"), ("dsolve", "D1"), ("dsolve", "D2"), ("fdsolve", "F"), ("fdsolve", "D1"), ("fdsolve", "D2"), ("dsolve", "N1"), ("dsolve", "N2"),
+                                  ("pydsolve", "D1"), ("pydsolve", "D2")]);
         let p_tag = if kind == "F" { 0.0 } else { 0.5 };
         // diagonally perturbed permutation-scrambled matrix: well conditioned, yet pivoting is forced
         let mut sigma: Vec<usize> = (0..nn).collect();
